@@ -12,7 +12,7 @@ type Gen struct {
 	R *simrt.Rand
 }
 
-func (g *Gen) Intn(n int) int { return g.R.Intn(n) }
+func (g *Gen) Intn(n int) int    { return g.R.Intn(n) }
 func (g *Gen) Bool(pct int) bool { return g.R.Intn(100) < pct }
 func (g *Gen) Range(lo, hi int) int { // inclusive
 	if hi <= lo {
